@@ -154,7 +154,7 @@ func BuiltinParseRFC3339(env *lisp.LEnv, args *lisp.LVal) *lisp.LVal {
 	if err != nil {
 		return env.Error(err)
 	}
-	return Time(t)
+	return Time(withParsedOffset(t))
 }
 
 func BuiltinParseRFC3339Nano(env *lisp.LEnv, args *lisp.LVal) *lisp.LVal {
@@ -169,7 +169,21 @@ func BuiltinParseRFC3339Nano(env *lisp.LEnv, args *lisp.LVal) *lisp.LVal {
 	if err != nil {
 		return env.Error(err)
 	}
-	return Time(t)
+	return Time(withParsedOffset(t))
+}
+
+// withParsedOffset pins t to the numeric offset its text carried. time.Parse
+// gives the result the host's Local location whenever the parsed offset is one
+// the host's time zone uses at that instant; arithmetic on such a value then
+// follows the host's daylight-saving rules, so what
+// (format-rfc3339 (time-add (parse-rfc3339 "2023-01-15T10:30:00+01:00") d))
+// printed depended on the TZ the process ran under.
+func withParsedOffset(t time.Time) time.Time {
+	if t.Location() == time.UTC {
+		return t
+	}
+	_, offset := t.Zone()
+	return t.In(time.FixedZone("", offset))
 }
 
 // checkStrictRFC3339 rejects the strings that time.Parse accepts for the
